@@ -865,8 +865,10 @@ var c17ErrInj = []c17Inj{
 // legal oddities that change nothing (comment lines) — in the alphabet
 var c17OkInj = []string{"# a > b ]] \" ' ; &amp; &lt; \x7f ]]&gt; ] ]> ]&#93;>\n", "#\n", "\t # = \n", "#&#60;&#x3c;&#38;\n"}
 
-// legal constructs outside the model's alphabet that change nothing
-var c17OkUnmod = []string{"<!-- k9=v9 -->", "<?pi k9=v9?>", "<![CDATA[# <k9=v9> & ]]>", "<!DOCTYPE x>", "# caf\u00e9 \u65e5\n", "<!-- -->\n"}
+// legal constructs that change nothing: comments, processing instructions, CDATA comment lines (modelled) and
+// directives, the xml declaration (outside the model's alphabet)
+var c17OkMarkup = []string{"<!-- k9=v9 -->", "<?pi k9=v9?>", "<![CDATA[# <k9=v9> & ]]>", "# caf\u00e9 \u65e5\n", "<!-- -->\n", "<!---->", "<!-- - -> \x01 \xff -->", "<?a:b.c-d ? > ?>", "<?x?>", "<![CDATA[]]>", "<![CDATA[#]]]]>", "<![CDATA[\n#\r\n]]>"}
+var c17OkUnmod = []string{"<!DOCTYPE x>", "<?xml version=\"1.0\"?>", "<?xml version='1.0' encoding=\"UTF-8\"?>", "<!ENTITY a \"b\">"}
 
 func c17GenDocs(rng *rand.Rand, n int, out *[]c17Case) {
 	for it := 0; it < n; it++ {
@@ -921,7 +923,11 @@ func c17GenDocs(rng *rand.Rand, n int, out *[]c17Case) {
 		ct = g.cuts[rng.Intn(len(g.cuts))]
 		okf := c17OkInj[rng.Intn(len(c17OkInj))]
 		*out = append(*out, c17Case{Kind: "doc-odd-comment", Inject: okf, Segs: segs1(ins(ct.off, okf)), Sure: true, MustOk: true, Expect: ex, Class: fmt.Sprintf("odd-comment/%q", okf)})
-		if rng.Intn(3) == 0 {
+		if rng.Intn(2) == 0 {
+			okf = c17OkMarkup[rng.Intn(len(c17OkMarkup))]
+			*out = append(*out, c17Case{Kind: "doc-markup", Inject: okf, Segs: segs1(ins(ct.off, okf)), Sure: true, MustOk: true, Expect: ex, Class: fmt.Sprintf("markup/%q", okf)})
+		}
+		if rng.Intn(4) == 0 {
 			okf = c17OkUnmod[rng.Intn(len(c17OkUnmod))]
 			*out = append(*out, c17Case{Kind: "doc-unmodelled", Inject: okf, Segs: segs1(ins(ct.off, okf)), Sure: false, MustOk: true, Expect: ex, Class: fmt.Sprintf("unmodelled/%q", okf)})
 		}
@@ -945,6 +951,11 @@ var c17Utf8Soup = []string{"\x7f", "\x80", "\xbf", "\xc0", "\xc1", "\xc2", "\xdf
 	"\xc2\x80", "\xdf\xbf", "\xe0\xa0\x80", "\xe0\x9f\xbf", "\xed\x9f\xbf", "\xed\xa0\x80", "\xee\x80\x80", "\xef\xbf\xbd", "\xef\xbf\xbe", "\xef\xbf\xbf", "\xef\xbb\xbf", "\xf0\x90\x80\x80", "\xf0\x8f\xbf\xbf", "\xf4\x8f\xbf\xbf", "\xf4\x90\x80\x80",
 	"é", "日", "\U0001F600", "k=", "=", "\n", " ", "#", "a", "<a>", "</a>", "<b/>", "&amp;",
 	"&#127;", "&#128;", "&#xA9;", "&#2047;", "&#2048;", "&#xD7FF;", "&#xD800;", "&#xDFFF;", "&#xE000;", "&#xFFFD;", "&#xFFFE;", "&#xFFFF;", "&#65536;", "&#x10FFFF;", "&#x110000;", "&#1114111;", "&#1114112;"}
+
+// comments, CDATA sections and processing instructions, whole and broken
+var c17MarkupSoup = []string{"<!--", "-->", "--", "-", ">", "<!-", "<![CDATA[", "<![CDAT", "<![cdata[", "]]>", "]]", "]", "<?", "?>", "?", "<?x", "<?a:b", "<?1", "<? ", "<?xm", "<?xmlx", "<?Xml", "a", " ", "\n", "k=v", "#", "<a>", "</a>", "<b/>",
+	"&", "&amp;", "&#65;", "\r", "\r\n", "\x01", "\t", "<", "=", "'", "\""}
+var c17MarkupWild = []string{"<?xml", "<?xml ", "<?xml?>", "<?xml version=\"1.0\"?>", "<?xml version=\"1.1\"?>", "<?xml encoding='latin1'?>", "é", "\xff", "<!DOCTYPE", "<!D", "<!>", "<!ENTITY x \"<\">"}
 var c17TextSoup = []string{"k=v", "k", "=", "#", "\n", "\n", " ", "\t", "\r", "\r\n", ";", ">", "]", "]]", "a", "b", "1", ".", "-", "_", "/", "\"", "'", "x=1", " = ", "v v", "#c", "\x7f", "k = v = w", "  ", "==", ">>", "] ]>", "]>"}
 
 func c17Soup(rng *rand.Rand, words []string, extra []string, extraPct int, maxLen int) []byte {
@@ -1068,6 +1079,12 @@ func c17Gen(tier string, rng *rand.Rand) []c17Case {
 		cs = append(cs, c17Case{Kind: "wild-soup", Segs: segs1(b), Sure: false, Extra: pickPaths(), Class: fmt.Sprintf("wild-soup/len%d", len(b)/8)})
 		b = c17Soup(rng, c17Utf8Soup, nil, 0, 12)
 		cs = append(cs, c17Case{Kind: "utf8-soup", Segs: segs1(b), Sure: true, Extra: pickPaths(), Class: fmt.Sprintf("utf8-soup/len%d", len(b)/8)})
+		b = c17Soup(rng, c17MarkupSoup, nil, 0, 14)
+		cs = append(cs, c17Case{Kind: "markup-soup", Segs: segs1(b), Sure: true, Extra: pickPaths(), Class: fmt.Sprintf("markup-soup/len%d", len(b)/8)})
+		if it%2 == 0 {
+			b = c17Soup(rng, c17MarkupSoup, c17MarkupWild, 20, 12)
+			cs = append(cs, c17Case{Kind: "markup-wild", Segs: segs1(b), Sure: false, Extra: pickPaths(), Class: fmt.Sprintf("markup-wild/len%d", len(b)/8)})
+		}
 		var sb bytes.Buffer
 		c17Balanced(rng, 0, &sb)
 		cs = append(cs, c17Case{Kind: "balanced-soup", Segs: segs1(sb.Bytes()), Sure: true, MustOk: true, Extra: pickPaths(), Class: fmt.Sprintf("balanced-soup/len%d", sb.Len()/8)})
